@@ -244,7 +244,7 @@ func (g *projGen) perturb(m *pMethod, structNames []string) string {
 	kinds := []string{"add-unbound-param", "add-url-param", "results-none", "results-three", "results-nonerror", "verb-invalid", "verb-unsupported", "unknown-annotation", "bad-status",
 		"verb-case", "dup-path-alias", "swap-path-alias", "prefix-url-param", "alias-steals-variable", "second-route", "alias-collides-with-name", "warn-prop-and-error", "bind-context", "unexported-method", "repeat-bound-url-param"}
 	if len(bindIdx) > 0 {
-		kinds = append(kinds, "drop-annot", "dup-annot", "rename-annot-value", "retype-struct", "retype-slice", "bad-alias", "annot-no-value")
+		kinds = append(kinds, "drop-annot", "dup-annot", "rename-annot-value", "retype-struct", "retype-slice", "bad-alias", "annot-no-value", "annot-no-value")
 	}
 	if len(bindIdx) > 1 {
 		kinds = append(kinds, "retarget")
@@ -313,6 +313,11 @@ func (g *projGen) perturb(m *pMethod, structNames []string) string {
 	case "annot-no-value":
 		i := rng.Pick(r, bindIdx)
 		m.Annots[i] = pAnnot{Name: m.Annots[i].Name}
+		if r.Bool() {
+			// … after an annotation that legitimately has no value: the missing value is ONE defect (value-must-exist), not
+			// also a "duplicate" of the other annotation's empty value
+			m.Annots = append([]pAnnot{{Name: "Deprecated"}}, m.Annots...)
+		}
 	case "add-unbound-param":
 		m.Params = append(m.Params, pParam{Name: "extra", Type: "string"})
 	case "repeat-bound-url-param":
